@@ -54,7 +54,7 @@ META = dict(
               'Onsager.C36.close1_not_transitive', 'Onsager.C36.close1_not_symmetric',
               'Onsager.C36.gopEq_not_transitive', 'Onsager.C36.gopEq_not_symmetric', 'Onsager.C36.C36_GroupOp_full_false',
               'Onsager.C36.vtkEq_not_transitive', 'Onsager.C36.vtk_hash_not_respecting_eq', 'Onsager.C36.C36_vTK_full_false'],
-    tie_theorems=['Onsager.C36.src_ne_forms', 'Onsager.C36.src_ne_is_negation', 'Onsager.C36.src_eq_fields',
+    tie_theorems=['Onsager.C36.src_cluster_key_form', 'Onsager.C36.src_ne_forms', 'Onsager.C36.src_ne_is_negation', 'Onsager.C36.src_eq_fields',
                   'Onsager.C36.src_hash_within_exact'],
     rule='instances of each type: pair states on zoo crystals (valid sites, random lattice vectors, chains with matching '
          'endpoints, zero states, the universal zero zero(-1), improper states with index -1, equal-(i,j,R)-different-dx '
@@ -120,6 +120,28 @@ def _facts(repo):
     return out
 
 
+def _ts_pair_mark(repo):
+    """form of the transition-pair marker in Cluster.__init__ (loop over enumerate(self.sites)):
+    0 = no branch on `transition` extends the key r; 1 = `elif transition and not vacancy and i < 2: r += (-2,)`
+    directly after the `if i<Nvac` branch; 2 = anything else."""
+    import warnings
+    with warnings.catch_warnings():
+        warnings.simplefilter('ignore')
+        tree = ast.parse(open(os.path.join(repo, 'onsager', 'cluster.py')).read())
+    cd = next(n for n in ast.walk(tree) if isinstance(n, ast.ClassDef) and n.name == 'Cluster')
+    init = next(n for n in cd.body if isinstance(n, ast.FunctionDef) and n.name == '__init__')
+    loops = [l for l in ast.walk(init) if isinstance(l, ast.For) and 'enumerate(self.sites)' in ast.unparse(l.iter)]
+    if len(loops) != 1: return 2
+    ifs = [n for n in ast.walk(loops[0]) if isinstance(n, ast.If) and 'transition' in ast.unparse(n.test)]
+    if not ifs: return 0
+    top = [n for n in loops[0].body if isinstance(n, ast.If) and ast.unparse(n.test) == 'i < Nvac']
+    if len(ifs) == 1 and len(top) == 1 and top[0].orelse == [ifs[0]] \
+            and ast.unparse(ifs[0].test) == 'transition and (not vacancy) and (i < 2)' and not ifs[0].orelse \
+            and [ast.unparse(b) for b in ifs[0].body] == ['r += (-2,)']:
+        return 1
+    return 2
+
+
 def extract(repo):
     def lst(l): return '[' + ', '.join('"%s"' % x for x in l) + ']'
     txt = ('/- GENERATED by harness/props/c36.py from onsager/{crystal,crystalStars,cluster,OnsagerCalc}.py on every run.\n'
@@ -133,6 +155,9 @@ def extract(repo):
         txt += 'def exact%s : List String := %s\n' % (n, lst(exact))
         txt += 'def tol%s : List String := %s\n' % (n, lst(tol))
         txt += 'def hash%s : List String := %s\n' % (n, lst(hashed))
+    txt += ('/-- transition-pair marker of Cluster.__init__: 0 = absent, 1 = `elif transition and not vacancy and i < 2: '
+            'r += (-2,)`, 2 = unrecognised -/\n'
+            'def tsPairMark : Nat := %d\ndef tsPairMarked : Bool := tsPairMark == 1\n' % _ts_pair_mark(repo))
     txt += 'end Generated.C36\n'
     return {'C36Facts.lean': txt}
 
